@@ -39,6 +39,11 @@ pub fn build_xml(rec: &Value) -> String {
             two(dec_opt(&e["amt"]).unwrap()), cd, date(e["bday"].as_i64().unwrap()), date(e["vday"].as_i64().unwrap())));
         s.push_str("<BkTxCd><Domn><Cd>PMNT</Cd><Fmly><Cd>RCDT</Cd><SubFmlyCd>OTHR</SubFmlyCd></Fmly></Domn></BkTxCd>\n");
         let details = e["details"].as_array().unwrap();
+        let echarge = dec_opt(&e["charge"]).unwrap_or(Decimal::ZERO);
+        if !echarge.is_zero() {
+            s.push_str(&format!("<Chrgs><TtlChrgsAndTaxAmt Ccy=\"CHF\">{}</TtlChrgsAndTaxAmt><Rcrd><Amt Ccy=\"CHF\">{}</Amt><CdtDbtInd>{}</CdtDbtInd><ChrgInclInd>true</ChrgInclInd></Rcrd></Chrgs>\n",
+                two(echarge), two(echarge), if echarge.is_sign_negative() { "CRDT" } else { "DBIT" }));
+        }
         if !details.is_empty() {
             s.push_str(&format!("<NtryDtls><Btch><NbOfTxs>{}</NbOfTxs></Btch>\n", details.len()));
             for (j, d) in details.iter().enumerate() {
@@ -47,7 +52,9 @@ pub fn build_xml(rec: &Value) -> String {
                 let dcd = if d["rev"] == true { if cd == "CRDT" { "DBIT" } else { "CRDT" } } else { cd };
                 s.push_str(&format!("<TxDtls><Refs><AcctSvcrRef>R{}-{}</AcctSvcrRef></Refs><Amt Ccy=\"CHF\">{}</Amt><CdtDbtInd>{}</CdtDbtInd>\n", k + 1, j + 1, two(amt), dcd));
                 if !charge.is_zero() {
+                    if d["figures"] != false {
                     s.push_str(&format!("<AmtDtls><InstdAmt><Amt Ccy=\"CHF\">{}</Amt></InstdAmt><TxAmt><Amt Ccy=\"CHF\">{}</Amt></TxAmt></AmtDtls>\n", two(amt - charge), two(amt - charge)));
+                    }
                     s.push_str(&format!("<Chrgs><TtlChrgsAndTaxAmt Ccy=\"CHF\">{}</TtlChrgsAndTaxAmt><Rcrd><Amt Ccy=\"CHF\">{}</Amt><CdtDbtInd>{}</CdtDbtInd><ChrgInclInd>true</ChrgInclInd></Rcrd></Chrgs>\n",
                         two(charge), two(charge), if charge.is_sign_negative() { "CRDT" } else { "DBIT" }));
                 }
